@@ -5,6 +5,13 @@
 use std::fmt::Write as _;
 use syn::visit::Visit;
 
+#[path = "../t5_hash_sites.rs"]
+mod t5_impl; // T5 (C12): HashMap/HashSet sites and their consumers -> Generated/HashSites.lean
+#[path = "../extract_t3.rs"]
+mod extract_t3; // T3 (C19/C17): derive sets -> Generated/Derives.lean
+#[path = "../extract_t7.rs"]
+mod extract_t7; // T7 (C15): is_crate predicates, MacroSettings collection kinds -> Generated/Frontends.lean
+
 struct FnFinder<'a> {
     name: &'a str,
     found: Option<syn::ImplItemFn>,
@@ -150,10 +157,17 @@ fn t1_int_formats(repo: &str, out: &mut String) {
     writeln!(out, "]\n").unwrap();
 }
 
+/// T5 (C12). Writes Generated/HashSites.lean; a site that cannot be classified is reported after
+/// every other table has been written (the table then contains `.unknown`, so `hash_sites_ok` fails too).
+fn t5_hash_sites(repo: &str, outdir: &str) -> Option<String> {
+    t5_impl::run(repo, outdir).err()
+}
+
 fn main() {
     let args: Vec<String> = std::env::args().collect();
     let repo = &args[1];
     let outdir = &args[2];
+    let t5_problem = t5_hash_sites(repo, outdir);
     let mut out = String::new();
     out.push_str("-- GENERATED by /verif/harness/src/bin/extract.rs from /repo source. Do not edit.\n");
     out.push_str("import TypifyModel.Model.IntTypes\n\nnamespace TypifyModel.Generated\nopen TypifyModel\n\n");
@@ -164,5 +178,10 @@ fn main() {
     // only rewrite when changed so lake does not rebuild needlessly
     if std::fs::read_to_string(&path).ok().as_deref() != Some(out.as_str()) {
         std::fs::write(&path, out).unwrap();
+    }
+    extract_t3::t3_derives(repo, outdir);
+    extract_t7::t7_frontends(repo, outdir);
+    if let Some(msg) = t5_problem {
+        fail(&msg);
     }
 }
